@@ -123,3 +123,8 @@ ACCUM_TABLE = {
     "util.rle_subseg:x += run": (("C02", "C17"), "the attribute runs of a text slice are cut by the run lengths passed"),
     "display._raw_display_base.Screen.draw_screen:y += 1": (("C04",), "rows that are skipped because they are unchanged still count: the cursor addressing of every later row uses y"),
 }
+
+# OFFSTEP: offset +- constant that is not a text position used for slicing.
+OFFSTEP_EXCEPTIONS = {
+    "text_layout.LayoutSegment.subseg:lines.append((1, spos - 1))": "a (columns, offset) two-tuple is padding with a cursor hint: the offset is only compared with cursor positions (calc_coords / calc_pos), never used to slice the text",
+}
